@@ -216,6 +216,7 @@ def check_reexecution(acc, case, other, plan):
         acc.case(key=text, labels=['rerun-skipped-abort-or-budget'])
         return
     labels = ['rerun']
+    commands_in_first = len([e for e in first if e[0] == 'cmd'])
     after_stop = False
     previous_stopped = False
     for index, step in enumerate(plan):
@@ -249,6 +250,9 @@ def check_reexecution(acc, case, other, plan):
                 clear()
             labels.append('run-started-the-job-runner-way')
         stop_after = step[1] if step[0] == 'stop' else None
+        if stop_after is not None and commands_in_first:
+            # somewhere inside the run, however few commands it sends
+            stop_after = 1 + (stop_after - 1) % commands_in_first
         trace, stopped, res = execute(world, job, population, stop_after)
         if stopped:
             labels.append('stopped-run')
@@ -381,7 +385,14 @@ def run_shard(spec):
         @given(gen.programs(PROFILE), gen.programs(PROFILE),
                st.one_of(
                    st.lists(PLAN_STEP, min_size=1, max_size=3),
-                   st.lists(PLAN_STEP, min_size=1, max_size=3),
+                   # a stopped run (or two), then a complete one
+                   st.tuples(
+                       st.lists(st.tuples(st.just('stop'), st.integers(1, 6))
+                                .map(list), min_size=1, max_size=2),
+                       st.lists(st.sampled_from(
+                           [['run'], ['run-as-agent'], ['stop-when-idle']]),
+                           min_size=1, max_size=2)).map(
+                               lambda pair: pair[0] + pair[1] + [['run']]),
                    # every way of starting a run, with stop requests that
                    # arrive between the runs
                    st.lists(st.sampled_from(
@@ -394,7 +405,7 @@ def run_shard(spec):
         @seed(spec['seed'])
         @progbase.hyp_settings(spec['examples'])
         @given(gen.programs(PROFILE), gen.programs(PROFILE),
-               st.one_of(st.none(), st.integers(1, 5)))
+               st.sampled_from([None, None, 1, 1, 1, 2, 2, 3, 5]))
         def run(case_a, case_b, stop_after):
             check_job_sequence(acc, case_a, case_b, stop_after)
         run()
